@@ -201,6 +201,22 @@ pub fn node_stream(seed: u64, histories: usize, cfg: Cfg) -> Sink {
                     sink.count("node.scripted-refresh");
                 }
             }
+            // now and then: a peer with two connections whose first transmission is not acknowledged within the
+            // timeout; the given-up connection's handler acknowledges late; the exchange goes on over the other one
+            if script.is_empty() && !want_drain && rng.chance(1, 45) {
+                if let Some(p) = (0..cfg.peers).find(|q| !view.conns.contains_key(q)) {
+                    let (c1, c2) = (view.next_conn, view.next_conn + 1);
+                    view.next_conn += 2;
+                    view.conns.entry(p).or_default().extend([c1, c2]);
+                    let (k1, k2) = (key(&mut rng, &cfg), key(&mut rng, &cfg));
+                    for o in [Some(format!("connect {p} {c1}")), Some(format!("connect {p} {c2}")), Some(format!("get {k1} 1")), None,
+                              Some("@missall".to_string()), None, Some("tick 1000".to_string()), None, Some(format!("@late {p}")), None,
+                              Some(format!("@ready {p}")), None, Some(format!("get {k2} 1")), None, Some("@missall".to_string()), None, None] {
+                        script.push_back(o);
+                    }
+                    sink.count("node.scripted-late-ack");
+                }
+            }
             let mut scripted = script.pop_front();
             if scripted == Some(Some("@missall".to_string())) {
                 // every pending blockstore lookup of the node misses
@@ -213,6 +229,16 @@ pub fn node_stream(seed: u64, histories: usize, cfg: Cfg) -> Sink {
                     sink.push(format!("n {op}"), out, "-".into());
                 }
                 scripted = Some(None);
+            }
+            if let Some(Some(sop)) = &scripted {
+                if let Some(p) = sop.strip_prefix("@late ") {
+                    // the handler of the connection that was given up acknowledges at last
+                    let p: u64 = p.parse().unwrap();
+                    scripted = match view.given_up.iter().rev().find(|x| x.0 == p) {
+                        Some((_, c)) => Some(Some(format!("sending {p} {c} received:{c}"))),
+                        None => Some(None),
+                    };
+                }
             }
             if let Some(Some(sop)) = &scripted {
                 if let Some(p) = sop.strip_prefix("@ready ") {
@@ -387,15 +413,6 @@ pub fn node_stream(seed: u64, histories: usize, cfg: Cfg) -> Sink {
                 Some(format!("sending {p} {src} {st}"))
             } else if r < 97 {
                 let ms = *rng.pick(&[1u64, 10, 500, 999, 1000, 1001, 5000, 29000, 30000, 31000]);
-                if ms >= 1000 {
-                    let late: Vec<(u64, u64)> = view.handshake.iter().filter(|(_, (_, stage))| *stage == 0).map(|(p, (c, _))| (*p, *c)).collect();
-                    for (p, c) in late {
-                        if view.conns.get(&p).map_or(false, |cs| cs.len() > 1) {
-                            view.handshake.remove(&p);
-                            view.given_up.push((p, c));
-                        }
-                    }
-                }
                 sink.count("node.tick");
                 Some(format!("tick {ms}"))
             } else {
@@ -405,7 +422,19 @@ pub fn node_stream(seed: u64, histories: usize, cfg: Cfg) -> Sink {
             };
             if let Some(o) = &op {
                 if let Some(ms) = o.strip_prefix("tick ") {
-                    view.now += ms.parse::<u64>().unwrap_or(0);
+                    let ms = ms.parse::<u64>().unwrap_or(0);
+                    view.now += ms;
+                    if ms >= 1000 {
+                        // wantlists that were only requested so far are not acknowledged in time: their connections are
+                        // given up (when the peer has another one; otherwise the whole peer goes)
+                        let late: Vec<(u64, u64)> = view.handshake.iter().filter(|(_, (_, stage))| *stage == 0).map(|(p, (c, _))| (*p, *c)).collect();
+                        for (p, c) in late {
+                            if view.conns.get(&p).map_or(false, |cs| cs.len() > 1) {
+                                view.handshake.remove(&p);
+                                view.given_up.push((p, c));
+                            }
+                        }
+                    }
                 }
             } else if view.now >= view.refresh_at {
                 view.refresh_at = view.now + 30_000;
